@@ -25,14 +25,16 @@ fails with the change and passes without it.  A second round asked for HARDER ch
 types, only for N >= 9, or only on value patterns that random and boundary sampling hit with probability below 2^-30.  A third
 round (ids -5, -6) described a differential tester to the sub-agent (exhaustive 8/16-bit types, nine digit counts, random +
 boundary values, both build modes) and asked for changes designed to EVADE it.
-A fourth round (ids -7: c03-7, c05-7, c06-7, c08-7, c13-7, c14-7, c17-7, c19-7, written in the continuation session) asked for a plausible refactoring / optimisation
+A fourth round (ids -7: c02-7, c03-7, c05-7, c06-7, c08-7, c09-7, c13-7, c14-7, c15-7, c17-7, c18-7, c19-7, written in the continuation session) asked for a plausible refactoring / optimisation
 mistake needing a specific digit type, width, rare value pattern or two cooperating sites (Knuth add-back skipped when q_hat was
 clamped; a power-of-two fast path in `overflowing_pow` whose u32 shift product wraps; a re-implemented `trailing_zeros` helper for the
 float cast that forgets the digit offset; an `Add<digit>` carry loop testing MAX after the increment; `rotate_right` masking with
 `BITS - 1`, wrong at non-power-of-two widths; a per-digit `is_power_of_two`; an equal-width unsigned -> signed `BTryFrom` fast path;
-`from_f64` shifting by `exp as u8`) - all eight are detected by the quick tier with a concrete input, and all but c17-7 and c19-7
+`from_f64` shifting by `exp as u8`; `carrying_mul` adding its carry to one digit only; a shift-for-division index in the u64 -> u8 digit
+cast; a `from_be_slice` loop stopping at `N`; an off-by-one early exit in `nth_root`) - all twelve are detected by the quick tier with a concrete
+input (c09-7 on the `(64,2) -> (8,17)` pair of the cast grid, c18-7 on the 264-bit configuration), and all but c02-7, c17-7 and c19-7
 additionally break a source-regenerated tie (`divgen_basecase`, the loop translator's `overflowing_pow` and `is_power_of_two`,
-`rs2v_float`'s pinned helper, `rs2v_glue`'s `U_rotate_right`, `xcast_I_btry_from_U`); c19-7 sits in the float branch of the
+`rs2v_float`'s pinned helper, `rs2v_glue`'s `U_rotate_right`, `xcast_I_btry_from_U`, `xcast_U_castd_I`, `gen_from_be_slice`, `nt_U_nth_root`); c19-7 sits in the float branch of the
 num-traits conversions, which is hand-modelled, and is caught by the correspondence on the `(8,300)` = 2400-bit configuration.
 I re-confirmed every one myself (`tools/confirm_mutant.sh`: demo on the clean tree, build with both feature sets, full
 suite, demo with the change in debug and release) and then ran my checks with the patch applied to `/repo`
